@@ -312,9 +312,30 @@ theorem replica_first_crash_atomic (C : Crypto) (hC : TreeStore.HashWF C) (hT : 
   · exact Or.inl ⟨shows_of_rp C bs 0 c' _ _ r4, r4⟩
   · exact Or.inr ⟨shows_of_rp C bs n c' _ _ r4, r4⟩
 
+/-- the same for **a block and an upgrade in one proof** (block `i < m`, upgrade `m → n`): the application writes the
+    block's bytes, then one oplog entry that carries the nodes, the upgrade and the bitfield update; cut after any number
+    of storage operations it leaves the replica of length `m` without the block or the replica of length `n` with it —
+    never the upgrade without the block or the block without the upgrade -/
+theorem replica_blockgrow_crash_atomic (C : Crypto) (hC : TreeStore.HashWF C) (hT : TreeStore.TreeWF C) (bs : Array Bytes) (m n : Nat) (c : Core) (d : Disk)
+    (held : Nat → Bool) (h : ReplicaReopen.RP C bs m c d held) (hm0 : 0 < m) (hmn : m < n) (hn : n ≤ bs.size) (us : List (Nat × Nat))
+    (hup : Growth.Up m 0 (RefTree.rootsStack n).reverse us) (sig : Bytes) (hsl : sig.length = 64)
+    (hver : C.verify c.publicKey (Growth.signableAt C bs n c.tree.fork) sig = true) (i : Nat) (hi : i < m) (k : Nat) :
+    let st := c.verifyAndApply C d (BlockGrow.honestBlockGrowth C bs c d i m n us sig)
+    let dk := d.applyAll (st.journal.take k)
+    ∃ c' j, Core.openCore C none dk = .ok (c', j) ∧ c'.publicKey = c.publicKey ∧ c'.tree.fork = c.tree.fork
+      ∧ ((Shows bs m held c' (dk.applyAll j) ∧ ReplicaReopen.RP C bs m c' (dk.applyAll j) held)
+        ∨ (Shows bs n (fun j => held j || j == i) c' (dk.applyAll j) ∧ ReplicaReopen.RP C bs n c' (dk.applyAll j) (fun j => held j || j == i))) := by
+  intro st dk
+  obtain ⟨c1, e, j0, hk⟩ := BlockGrow.blockgrow_ok C hC hT bs m n c d held h hm0 hmn hn us hup sig hsl hver i hi
+  obtain ⟨c', j, r1, r2, r3, r4⟩ := ReplicaCrash.crash_recover C bs m n c c1 d held _ _ e j0 h hk k
+  refine ⟨c', j, r1, r2, r3, ?_⟩
+  rcases r4 with r4 | r4
+  · exact Or.inl ⟨shows_of_rp C bs m c' _ held r4, r4⟩
+  · exact Or.inr ⟨shows_of_rp C bs n c' _ _ r4, r4⟩
+
 /-- **replicas survive any number of crashes.**  From a replica created with `Hypercore::new` over empty stores and
-    the writer's public key: every state reached by first contact, honest exchanges (with the request computed from the
-    replica's current length), close/reopen steps and crashes at any storage operation of any of these applications
+    the writer's public key: every state reached by first contact, honest exchanges (upgrade, block, hash, block + upgrade in one proof; with
+    the request computed from the replica's current length), close/reopen steps and crashes at any storage operation of any of these applications
     followed by a reopen (`ReplicaCrash.Reach`) shows a prefix of the writer's log — its length and byte length,
     every held block byte-identical, `has` and the contiguous length exact — and satisfies the invariants, so
     `replica_crash_atomic` / `replica_first_crash_atomic` apply again: the next crash is recoverable, without bound. -/
